@@ -64,8 +64,11 @@ def gen(tier, rng):
         yield {"kind": "head", "status": st, "headers": good + ([(b"Location", b"ws://h2.test/")] if 300 <= st < 400 else []),
                "subs": [], "limit": 0}
     # 3. subprotocols
-    for offered in ([], ["chat"], ["chat", "Super"], ["a", "b"]):
-        for sel in (None, b"chat", b"CHAT", b"super", b"nope", b"", b"chat, super"):
+    for offered in ([], ["chat"], ["chat", "Super"], ["a", "b"], ["mqttv3.1", "v12.stomp"]):
+        # near misses: prefixes, suffixes, infixes of an offered name, the offer echoed back as a list, a piece across the comma
+        near = (b"cha", b"hat", b"ha", b"chat,super", b"t,s", b"uper", b"chat,", b",", b"mqtt", b"stomp", b"v3.1", b"1,v12", b"mqttv3.1,v12.stomp",
+                b"mqttv3.1", b"V12.STOMP", b"chatx", b"xchat")
+        for sel in (None, b"chat", b"CHAT", b"super", b"nope", b"", b"chat, super") + near:
             hs = list(good) + ([(b"Sec-WebSocket-Protocol", sel)] if sel is not None else [])
             yield {"kind": "head", "status": 101, "headers": hs, "subs": offered}
     # 4. redirect chains of every length against every limit
